@@ -401,9 +401,8 @@ def plan_c12(tier, seed):
     for with_batch in (False, True):
         for rep in range(2 if tier == "quick" else 10):
             units.append(("c12_affine", ([(), (2,), (3,), (2, 2)] if tier == "quick" else [(), (1,), (2,), (3,), (1, 2), (2, 2), (3, 2)], with_batch, int(rs.randint(1 << 30)))))
-    for k in range(chain_units):
-        units.append(("c12_chains", (sigs, chain_depth, chain_count, int(rs.randint(1 << 30)))))
-    return units, bounds, False
+    chains = [("c12_chains", (sigs, chain_depth, chain_count, int(rs.randint(1 << 30)))) for k in range(chain_units)]
+    return chains + units, bounds, False  # the heavy units first (load balance)
 
 
 def plan_c13(tier, seed):
@@ -434,7 +433,7 @@ def plan_c14(tier, seed):
     if tier == "quick":
         shapes, sizes, max_dim, sig_stride, reps, delta_reps = [(), (2,), (2, 2)], [1, 2, 3], 6, 24, 2, 1
     else:
-        shapes, sizes, max_dim, sig_stride, reps, delta_reps = [(), (1,), (2,), (3,), (2, 2)], [1, 2, 3], 7, 12, 24, 8
+        shapes, sizes, max_dim, sig_stride, reps, delta_reps = [(), (1,), (2,), (3,), (2, 2)], [1, 2, 3], 7, 20, 24, 8
     sigs = list(G.signatures(shapes, sizes, max_reals=3, max_ints=2, max_dim=max_dim))
     picked = [s for k, s in enumerate(sigs) if (k + seed) % sig_stride == 0]
     for sig in picked:
